@@ -92,3 +92,14 @@ Theorem C09_source_heuristic_statuses : forall code, src_is_heuristically_cachea
 Proof. exact tie_is_heuristically_cacheable. Qed.
 Print Assumptions C09_source_decision.
 Print Assumptions C09_source_heuristic_statuses.
+
+(* the effect trees this property is stated about — which store / origin / clock operations happen, in which order, under
+   which conditions, and what every path returns — are those /verif/translate derives from the Go source on this run
+   (Generated/SrcEffects.v; equal up to the extensional equality of continuations, ProgEq.peq, which [run] respects) *)
+From HC.Generated Require Import SrcEffects.
+From HC.Proofs Require Import ProgEq TieEffects.
+Theorem C09_source_effects :
+  (forall q, peq (src_round_trip q) (round_trip q)) /\
+  (forall q e k refs i, peq (src_handle_cache_hit q e k refs i) (handle_cache_hit q e k refs i)).
+Proof. repeat split; [exact tie_round_trip|exact tie_handle_cache_hit]. Qed.
+Print Assumptions C09_source_effects.
